@@ -218,10 +218,18 @@ type E2EResult struct {
 	ExtraOK        bool
 	Fetches        int
 	CloseHung      bool
-	Events         []Event // pipeline hook events of this consumer, in order (empty on a tree without the hooks)
+	Requests       []FetchSeen // every FetchRequest the broker decoded
+	Events         []Event     // pipeline hook events of this consumer, in order (empty on a tree without the hooks)
 	ExtraDelivered map[int32][]*sarama.ConsumerMessage
 	SiblingStalled bool      // a further partition on the same broker stopped receiving although nothing happened to it
 	Resps          [][]int64 // offsets parseResponse must have produced from each data response served for partition 0
+}
+
+// FetchSeen is what the simulated broker read from one FetchRequest.
+type FetchSeen struct {
+	Version   int16
+	Isolation int8
+	Blocks    []sarama.VerifConsumerFetchBlock
 }
 
 type quiet struct{}
@@ -267,7 +275,9 @@ func RunE2E(seed int64, sc E2EScenario) E2EResult {
 	hookMu.Unlock()
 	defer func() { hookMu.Lock(); delete(hookSubs, sc.Topic); delete(hookSubs, broker.Addr()); hookMu.Unlock() }()
 
-	l := sc.Gen.Log
+	cfgView := sc.Gen.ViewFor(sc.ReadCommitted) // what a consumer with the configured isolation level may see
+	l := cfgView.Log
+	var requests []FetchSeen
 	var mu sync.Mutex
 	metaFailLeft := 0
 	gateOpen := false
@@ -292,7 +302,7 @@ func RunE2E(seed int64, sc E2EScenario) E2EResult {
 		offs.SetVersion(1)
 	}
 	for p := int32(0); p <= int32(sc.Extra); p++ {
-		offs.SetOffset(sc.Topic, p, sarama.OffsetOldest, sc.Oldest).SetOffset(sc.Topic, p, sarama.OffsetNewest, l.End())
+		offs.SetOffset(sc.Topic, p, sarama.OffsetOldest, sc.Oldest).SetOffset(sc.Topic, p, sarama.OffsetNewest, sc.Gen.HWM())
 	}
 	step := 0
 	fetches := 0
@@ -308,6 +318,11 @@ func RunE2E(seed int64, sc E2EScenario) E2EResult {
 		mu.Lock()
 		defer mu.Unlock()
 		fetches++
+		requests = append(requests, FetchSeen{info.Version, int8(info.Isolation), append([]sarama.VerifConsumerFetchBlock(nil), info.Blocks...)})
+		// the broker honours the request: read_committed (on the wire from version 4 on) => records up to the last
+		// stable offset + the aborted-transaction index; otherwise records up to the high-water mark and no index
+		reqRC := info.Version >= 4 && info.Isolation == sarama.ReadCommitted
+		view := sc.Gen.ViewFor(reqRC)
 		// a consumer that does not get ahead polls as fast as the mock answers, and the mock keeps every
 		// request/response pair: slow the polling down once a case has seen more fetches than any healthy run
 		if fetches > 400 {
@@ -343,12 +358,15 @@ func RunE2E(seed int64, sc E2EScenario) E2EResult {
 			case 6:
 				return []byte{}
 			}
-			sv := sc.Gen.Serve(rng, b.Offset, b.MaxBytes, d, sc.ReadCommitted, info.Version)
+			sv := view.Serve(rng, b.Offset, b.MaxBytes, d, reqRC, info.Version)
+			for i := range sv.Parts {
+				sv.Parts[i].HWM = sc.Gen.HWM()
+			}
 			if b.Partition == 0 && sv.Kind == 0 {
 				var offs []int64
-				for _, u := range l[sv.From:sv.To] {
+				for _, u := range view.Log[sv.From:sv.To] {
 					for _, r := range u.Refs() {
-						if r.Offset >= b.Offset && !r.Control && !(sc.ReadCommitted && r.Aborted) {
+						if r.Offset >= b.Offset && !r.Control && !(reqRC && r.Aborted) {
 							offs = append(offs, r.Offset)
 						}
 					}
@@ -604,6 +622,7 @@ drain:
 	res.Started, res.HasStarted = resolve()
 	mu.Lock()
 	res.Fetches = fetches
+	res.Requests = requests
 	res.Resps = resps
 	mu.Unlock()
 	return res
@@ -618,8 +637,31 @@ func E2ECoq(sc E2EScenario, res E2EResult) string {
 	} else if res.StartErr != nil && !errors.Is(res.StartErr, sarama.ErrOffsetOutOfRange) {
 		started = "(start_failed)" // ill-typed on purpose: an unexpected ConsumePartition error is a broken tie
 	}
-	return cf.App("Build_ecase", cfg, sc.Gen.Log.Coq(), cf.Z(sc.Req), cf.Z(sc.Oldest), cf.Z(sc.Gen.Log.End()), started,
-		cf.Bool(res.Complete), CoqMsgs(stripInterceptorHeaders(res.Delivered, len(sc.Interceptors) > 0)))
+	view := sc.Gen.ViewFor(sc.ReadCommitted)
+	kv := sc.KafkaVersion
+	// distinct (version, isolation) pairs of the requests the broker decoded
+	var reqs []string
+	seen := map[[2]int64]bool{}
+	for _, r := range res.Requests {
+		k := [2]int64{int64(r.Version), int64(r.Isolation)}
+		if !seen[k] {
+			seen[k] = true
+			reqs = append(reqs, fmt.Sprintf("(%s, %s)", cf.Z(k[0]), cf.Z(k[1])))
+		}
+	}
+	return cf.App("Build_ecase", cfg, view.Log.Coq(), cf.Z(sc.Req), cf.Z(sc.Oldest), cf.Z(sc.Gen.HWM()), started,
+		cf.Bool(res.Complete), CoqMsgs(stripInterceptorHeaders(res.Delivered, len(sc.Interceptors) > 0)),
+		kvTuple(kv), cf.List(reqs))
+}
+
+// kvTuple prints a KafkaVersion as the model's four numbers.
+func kvTuple(kv sarama.KafkaVersion) string {
+	var n [4]int
+	parts := strings.Split(kv.String(), ".")
+	for i := 0; i < len(parts) && i < 4; i++ {
+		fmt.Sscanf(parts[i], "%d", &n[i])
+	}
+	return fmt.Sprintf("(%d, %d, %d, %d)", n[0], n[1], n[2], n[3])
 }
 
 // with interceptors configured the delivered headers carry the interceptors' marks; the C03 comparison is on
